@@ -17,6 +17,7 @@ type c12In struct {
 	In   string `json:"in"`  // hex seed / private key bytes
 	WantPK bool `json:"pk"`  // record the public key (ECDSA; costs one model scalar multiplication)
 	Conc   int  `json:"conc,omitempty"` // keygen: also call from 16 goroutines, Conc times each ("identical on every call")
+	Mask   int  `json:"mask,omitempty"` // blspk: bit i set = PublicKey() was called on input key i before aggregation
 }
 
 func init() {
@@ -76,10 +77,10 @@ func c12Gen(tier string, r *rand.Rand) []Case {
 			if wantPK {
 				npk++
 			}
-			cs = append(cs, mkcase("keygen-random", c12In{"keygen", a, hx(rbytes(r, l)), wantPK, 0}))
+			cs = append(cs, mkcase("keygen-random", c12In{"keygen", a, hx(rbytes(r, l)), wantPK, 0, 0}))
 			if tier == "thorough" || boundary[l] || (pick && l%4 == 0) {
-				cs = append(cs, mkcase("keygen-zero", c12In{"keygen", a, hx(fill(l, 0)), false, 0}))
-				cs = append(cs, mkcase("keygen-ff", c12In{"keygen", a, hx(fill(l, 0xff)), false, 0}))
+				cs = append(cs, mkcase("keygen-zero", c12In{"keygen", a, hx(fill(l, 0)), false, 0, 0}))
+				cs = append(cs, mkcase("keygen-ff", c12In{"keygen", a, hx(fill(l, 0xff)), false, 0, 0}))
 			}
 		}
 	}
@@ -93,11 +94,42 @@ func c12Gen(tier string, r *rand.Rand) []Case {
 		if tier == "thorough" {
 			n *= 4
 		}
-		cs = append(cs, mkcase("keygen-concurrent", c12In{"keygen", a, hx(rbytes(r, 32+i*7)), false, n}))
+		cs = append(cs, mkcase("keygen-concurrent", c12In{"keygen", a, hx(rbytes(r, 32+i*7)), false, n, 0}))
+	}
+	// BLS public keys of decoded and aggregated private keys: "whether generated, decoded or aggregated,
+	// the public key equals the private scalar times the generator".  Every subset of the inputs has had
+	// its public key computed (and cached) before the aggregation.
+	{
+		one := func(n int) []byte {
+			var b []byte
+			for i := 0; i < n; i++ {
+				x := rbytes(r, 32)
+				x[0] &= 0x3f // below r
+				b = append(b, x...)
+			}
+			return b
+		}
+		cs = append(cs, mkcase("blspk-decoded", c12In{Op: "blspk", Alg: "bls", In: hx(one(1))}))
+		cs = append(cs, mkcase("blspk-decoded", c12In{Op: "blspk", Alg: "bls", In: hx(one(1)), Mask: 1}))
+		for _, n := range []int{2, 3} {
+			keys := one(n)
+			for mask := 0; mask < 1<<n; mask++ {
+				if tier != "thorough" && n == 3 && mask%3 == 1 {
+					continue
+				}
+				cs = append(cs, mkcase("blspk-aggregated", c12In{Op: "blspk", Alg: "bls", In: hx(keys), Mask: mask}))
+			}
+		}
+		if tier == "thorough" {
+			keys := one(5)
+			for _, mask := range []int{0, 1, 16, 21, 30, 31} {
+				cs = append(cs, mkcase("blspk-aggregated", c12In{Op: "blspk", Alg: "bls", In: hx(keys), Mask: mask}))
+			}
+		}
 	}
 	// the repository's pinned vectors
 	for _, a := range algs {
-		cs = append(cs, mkcase("keygen-pinned", c12In{"keygen", a, "00112233445566778899aabbccddeeff00112233445566778899aabbccddeeff", a != "bls", 0}))
+		cs = append(cs, mkcase("keygen-pinned", c12In{"keygen", a, "00112233445566778899aabbccddeeff00112233445566778899aabbccddeeff", a != "bls", 0, 0}))
 	}
 	// DecodePrivateKey on edge scalars; public key = scalar * G
 	for _, a := range []string{"p256", "k1"} {
@@ -127,10 +159,10 @@ func c12Gen(tier string, r *rand.Rand) []Case {
 			if s.BitLen() > 256 {
 				continue
 			}
-			cs = append(cs, mkcase("decode-scalar", c12In{"decode", a, hx(s.FillBytes(make([]byte, 32))), true, 0}))
+			cs = append(cs, mkcase("decode-scalar", c12In{"decode", a, hx(s.FillBytes(make([]byte, 32))), true, 0, 0}))
 		}
 		for _, l := range []int{0, 31, 33} {
-			cs = append(cs, mkcase("decode-length", c12In{"decode", a, hx(rbytes(r, l)), false, 0}))
+			cs = append(cs, mkcase("decode-length", c12In{"decode", a, hx(rbytes(r, l)), false, 0, 0}))
 		}
 	}
 	return cs
@@ -143,6 +175,9 @@ func c12Run(c Case) (Result, error) {
 	}
 	alg := c12Algo(in.Alg)
 	input := unhx(in.In)
+	if in.Op == "blspk" {
+		return c12BlsPK(c, in, input)
+	}
 	var sk, sk2 crypto.PrivateKey
 	var err, err2 error
 	kind := 0
@@ -159,7 +194,7 @@ func c12Run(c Case) (Result, error) {
 		}
 	})
 	if panicked {
-		return Result{}, fmt.Errorf("panic in key construction: %s", pmsg)
+		return Result{}, implViolation("panic in key construction: %s", pmsg)
 	}
 	concBad, concVal, concNote := false, "", ""
 	if in.Conc > 0 && err == nil && err2 == nil {
@@ -231,4 +266,45 @@ func c12Run(c Case) (Result, error) {
 		cqs(skHex), cqs(sk2Hex), cqs(pkHex), cqbool(idem))
 	return Result{Coq: term, Key: string(c.Input), Nontrivial: true,
 		Obs: map[string]any{"ok": ok, "invalid_input_error": invalid, "sk": skHex, "sk_second_call": sk2Hex, "pk": pkHex, "pubkey_idempotent": idem, "concurrent_calls": 16 * in.Conc, "concurrent_note": concNote}}, nil
+}
+
+// c12BlsPK: the BLS public key of a decoded or aggregated private key, with PublicKey() already
+// called on the inputs selected by the mask.
+func c12BlsPK(c Case, in c12In, input []byte) (Result, error) {
+	n := len(input) / 32
+	mk := func(callPK func(i int) bool) (crypto.PrivateKey, error) {
+		var sks []crypto.PrivateKey
+		for i := 0; i < n; i++ {
+			k, err := crypto.DecodePrivateKey(crypto.BLSBLS12381, input[32*i:32*i+32])
+			if err != nil {
+				return nil, fmt.Errorf("harness: scalar %d not decodable: %v", i, err)
+			}
+			if callPK(i) {
+				_ = k.PublicKey()
+			}
+			sks = append(sks, k)
+		}
+		if n == 1 {
+			return sks[0], nil
+		}
+		return crypto.AggregateBLSPrivateKeys(sks)
+	}
+	var key, key2 crypto.PrivateKey
+	var err, err2 error
+	panicked, pmsg := catch(func() {
+		key, err = mk(func(i int) bool { return in.Mask>>i&1 == 1 })
+		key2, err2 = mk(func(int) bool { return true })
+	})
+	if panicked {
+		return Result{}, implViolation("panic in BLS key aggregation: %s", pmsg)
+	}
+	if err != nil || err2 != nil {
+		return Result{}, implViolation("decoding/aggregating valid BLS private keys failed: %v %v", err, err2)
+	}
+	p1, p2 := key.PublicKey(), key.PublicKey()
+	idem := p1.Equals(p2) && p2.Equals(p1) && hx(p1.Encode()) == hx(p2.Encode()) && key.Equals(key2) &&
+		key2.PublicKey().Equals(p1) && hx(key2.PublicKey().Encode()) == hx(p1.Encode())
+	term := fmt.Sprintf("mkCase 2%%N ABls %s true false %s %s %s %s", cqs(in.In), cqs(hx(key.Encode())), cqs(hx(key2.Encode())), cqs(hx(p1.Encode())), cqbool(idem))
+	return Result{Coq: term, Key: string(c.Input), Nontrivial: true,
+		Obs: map[string]any{"sk": hx(key.Encode()), "pk": hx(p1.Encode()), "pubkey_consistent": idem, "mask": in.Mask, "keys": n}}, nil
 }
